@@ -70,3 +70,38 @@ func H_history() {
 	}
 	symx.Reach("end")
 }
+
+// H_two: the shape that matters most, for every pair of type arguments: instantiate Box<A>,
+// use it, instantiate Box<B> (same or other slot), then write every value kind into the second
+// instance and again into the first.
+func H_two() {
+	a, b, kind := symx.Choose("A", 4), symx.Choose("B", 4), symx.Choose("kind", 4)
+	via := symx.Choose("via", 2)
+	w := symx.Int("w")
+	src := "class U {}\nclass Box<T> { public T $v; public function set(T $x) { $this->v = $x; return 1; } }\n"
+	src += "$x = new Box<" + typeArgs[a] + ">();\n$x->v = " + valueExprs[a] + ";\n"
+	src += "$y = new Box<" + typeArgs[b] + ">();\n"
+	wr := func(v, e string) string {
+		if via == 1 {
+			return "try { " + v + "->set(" + e + "); mark(1); } catch (Throwable $e) { mark(0); }\n"
+		}
+		return "try { " + v + "->v = " + e + "; mark(1); } catch (Throwable $e) { mark(0); }\n"
+	}
+	src += wr("$y", valueExprs[kind]) + wr("$x", valueExprs[kind])
+	s := sx.Compile(src)
+	symx.Assert(s.Err == nil, "history parses")
+	if s.Err != nil {
+		return
+	}
+	_, ctl := s.Run(sx.Bind{Name: "pw", V: sx.Int(w)})
+	symx.Assert(ctl == nil, "history runs")
+	if ctl != nil || len(sx.Log) != 2 {
+		symx.Assert(ctl != nil || len(sx.Log) == 2, "one outcome per write")
+		return
+	}
+	gotY := sx.Log[0].Kind == 'M' && sx.Log[0].I == 1
+	gotX := sx.Log[1].Kind == 'M' && sx.Log[1].I == 1
+	symx.AssertKnown(gotY == (kind == b), "second instance enforces its own type argument", a != b, "C19-first-instantiation-wins")
+	symx.AssertKnown(gotX == (kind == a), "first instance keeps enforcing its own type argument", a != b, "C19-first-instantiation-wins")
+	symx.Reach("end")
+}
